@@ -218,30 +218,69 @@ def check_lock(chk, prog):
 
 
 def check_publish(chk, prog):
-    R = chk.rule("R-PUBLISH", "ConcurrentVec::push and resize_with: the write lock is taken first, the slot write (push_at) dominates the head.store that publishes it; "
+    R = chk.rule("R-PUBLISH", "ConcurrentVec::push and resize_with: the write lock is taken first, `head` is re-read under it, and the value published by head.store covers exactly "
+                 "the slots written before it — push_at(i = head) then head := i + 1, or `for i in head..X { push_at(.., i) }` then head := X; "
                  "ParallelVecWriter raw writes use an offset obtained from reserve_space")
     cv = CC + "concurrent_vec::ConcurrentVec"
     for name in ("push", "resize_with"):
         f = prog.need(f"{cv}::{name}")
-        reg = prog.region(f)
         lock = [c for c in f.calls if c.p.endswith("Mutex::lock")]
         store = [c for c in f.calls if c.p.endswith("::store")]
-        pa = [(g, c) for g in reg for c in g.calls if c.p == cv + "::push_at"]
-        ok = bool(lock) and bool(store) and bool(pa)
-        if ok:
-            for s in store:
-                # every push_at in the body happens before the publishing store
-                for g, c in pa:
-                    if g is f:
-                        ok = ok and f.dominates(c.bb, s.bb)
-                    else:
-                        cb = [bi for (bi, bj, nm, ops) in f.closures_created() if nm == g.name or g.name.startswith(nm)]
-                        ok = ok and bool(cb) and all(f.dominates(b, s.bb) for b in cb)
-                ok = ok and any(f.dominates(l.bb, s.bb) for l in lock)
-            # loops calling push_at: the store must come after the loop
-            ok = ok and all(s.bb not in f.reach(s.bb) for s in store)
-        chk.judge(ok, R, f"{cv}::{name}", "slot(s) written under the write lock before `head` is published",
-                  "`head` can be published before the slot is written (readers would see uninitialised memory) or without the write lock", f.loc)
+        pa = [c for c in f.calls if c.p == cv + "::push_at"]
+        loads = {c.bb for c in f.calls if c.p.endswith("::load") and any(a[0] == "param" and a[2][-1:] == ("head",) for a in f.origins(c.args[0]))}
+        # the head value read under the write lock
+        locked_loads = {b for b in loads if any(f.dominates(l.bb, b) for l in lock)}
+
+        def from_locked_head(operand):
+            at = f.origins(operand)
+            return bool(at) and all(a[0] == "call" and a[2] in locked_loads for a in at)
+        ok = bool(lock) and bool(store) and bool(pa) and bool(locked_loads)
+        why = "no lock / store / push_at / head load under the lock"
+        for st in store if ok else []:
+            ok = ok and any(f.dominates(l.bb, st.bb) for l in lock) and st.bb not in f.reach(st.bb)
+            V = st.args[1]
+            covered = False
+            # (A) one slot: push_at(item, i) with i = head, publish i + 1
+            for c in pa:
+                if f.dominates(c.bb, st.bb) and from_locked_head(c.args[2]):
+                    for a in f.origins(V):
+                        if a[0] == "bin" and a[1] in ("Add", "AddWithOverflow"):
+                            stt = f.stmt(a[2], a[3])
+                            ops = stt[2][2:4]
+                            if any(from_locked_head(o) for o in ops if o[0] in ("c", "m")) and any(o[0] == "k" and o[1].startswith("1") for o in ops):
+                                covered = True
+            # (B) a range of slots: for i in head..X { push_at(item, i) } ; publish X
+            for nx in f.calls:
+                if not (nx.p.endswith("Iterator>::next") or nx.p.endswith("Iterator::next")) or "Range" not in nx.p:
+                    continue
+                rng = [a for a in f.origins(nx.args[0]) if a[0] == "agg" and str(a[2]).endswith("ops::range::Range")]
+                if not rng:
+                    continue
+                stt = f.stmt(rng[0][4], rng[0][5])
+                r_start, r_end = stt[2][4][0], stt[2][4][1]
+                if not from_locked_head(r_start):
+                    continue
+                sw = nx.target
+                if sw is None or f.term(sw)[0] != "switch":
+                    continue
+                some = [tb for v, tb in f.term(sw)[2] if v == "1"]
+                if not some:
+                    continue
+                body_pa = {c.bb for c in pa if any(a[0] == "call" and a[2] == nx.bb for a in f.origins(c.args[2]))}
+                if not body_pa:
+                    continue
+                r = {some[0]} | f.reach_avoiding([some[0]], body_pa) if some[0] not in body_pa else set()
+                if nx.bb in r:
+                    continue
+                in_loop = (st.bb == some[0] or st.bb in f.reach(some[0])) and nx.bb in f.reach(st.bb)
+                if f.dominates(nx.bb, st.bb) and not in_loop and (f.origins(V) == f.origins(r_end)):
+                    covered = True
+            if not covered:
+                ok = False
+                why = ("the value stored into `head` is not covered by the slots written before it: expected either push_at(i = head) followed by head := i + 1, or a loop "
+                       "`for i in head..X { push_at(.., i) }` followed by head := X. Publishing further than what was written exposes uninitialised slots to readers")
+        chk.judge(ok, R, f"{cv}::{name}", "slot(s) written under the write lock before `head` is published, and `head` advances exactly over the written slots",
+                  why if not ok else "", f.loc)
     pw = CC + "parallel_writer::ParallelVecWriter"
     n = 0
     for f in prog.lib_fns(["egglog_concurrency"]):
@@ -382,14 +421,15 @@ def check_guard_spans_raw(chk, prog):
             bad = None
             for ab in acq:
                 a = f.call_at(ab)
-                G = a.dest[0]
+                from ..util import copies_of
+                Gs = copies_of(f, a.dest[0])
                 drops = set()
                 for b in f.live:
                     t = f.term(b)
-                    if t[0] == "drop" and t[1][0] == G and not t[1][1]:
+                    if t[0] == "drop" and t[1][0] in Gs and not t[1][1]:
                         drops.add(b)
                 for c2 in f.calls:
-                    if c2.p.endswith("mem::drop") and c2.args and c2.args[0][0] in ("m", "c") and c2.args[0][1][0] == G:
+                    if c2.p.endswith("mem::drop") and c2.args and c2.args[0][0] in ("m", "c") and c2.args[0][1][0] in Gs:
                         drops.add(c2.bb)
                     # moved into a copy local then dropped
                 reach_a = f.reach(ab)
